@@ -117,11 +117,16 @@ class Exec:
         """value -> immutable SV (reads list cells)"""
         if isinstance(v, Ref):
             c = self.p.cell(v)
+            if isinstance(c, ListCell) and ty is not None and ty.kind == "val":
+                return lift(self.to_sv(v, SEQ(VAL)), VAL)  # a list as an opaque Vyxal value
             if isinstance(c, ListCell):
                 if c.items is not None:
                     if ty is None and c.elem is not None:
                         ty = SEQ(c.elem)
-                    vals = [self.to_sv(x, elem_of(ty) if ty is not None and ty.kind != "rec" else None) if isinstance(x, Ref) else x for x in c.items]
+                    if ty is not None and ty.kind == "rec":
+                        vals = [self.to_sv(x, ft) if isinstance(x, Ref) else x for x, (_, ft) in zip(c.items, ty.fields)]
+                    else:
+                        vals = [self.to_sv(x, elem_of(ty) if ty is not None else None) if isinstance(x, Ref) else x for x in c.items]
                     return lift(vals, ty)
                 return lift(c.sv, ty)
             raise OutOfSubset("object used as a value")
@@ -433,6 +438,8 @@ class Exec:
             except OutOfSubset:
                 raise
             if x is None:
+                if self.spec_mode:
+                    raise OutOfSubset(f"ill-typed comparison in a contract clause: {a!r} == {b!r}")
                 r = False
                 return (not r) if isinstance(op, ast.NotEq) else r
             z = x.z == y.z
@@ -530,6 +537,10 @@ class Exec:
                 sp = self.w.rev_spec_for.get(repr(sv.ty))
                 if sp is not None:
                     r = self.apply_spec(self.w.specs[sp], [sv])
+                    if ("lemma_len_" + sp) in self.w.lemmas:  # |rev(s)| == |s|, proved separately by induction
+                        from .lemmas import LemmaFn
+
+                        LemmaFn(self.w.lemmas["lemma_len_" + sp]).apply(self, [sv], {})
                 else:
                     r = SV(self.w.rev_fn(sv)(sv.z), sv.ty)
                     self.w.rev_axioms(self, sv)
@@ -608,11 +619,14 @@ class Exec:
                 elif isinstance(v, tuple):
                     args.extend(v)
                 else:
-                    raise OutOfSubset("*args of symbolic length")
+                    args.extend(self.star_symbolic(v))
             else:
                 args.append(self.eval(a, fr))
         kwargs = {k.arg: self.eval(k.value, fr) for k in n.keywords}
         return self.call(fn, args, kwargs, n, fr)
+
+    def star_symbolic(self, v):
+        raise OutOfSubset("*args of symbolic length")
 
     def call(self, fn, args, kwargs, node, fr):
         if isinstance(fn, BoundMethod):
@@ -675,7 +689,7 @@ class RecordCtor:
 
     def construct(self, ex, args, kwargs):
         vals = list(args) + [kwargs[a] for a in self.argnames[len(args):]]
-        return SV(self.ty.mk(*[lift(ex.to_sv(v), ft).z for v, (_, ft) in zip(vals, self.ty.fields)]), self.ty)
+        return SV(self.ty.mk(*[lift(ex.to_sv(v, ft), ft).z for v, (_, ft) in zip(vals, self.ty.fields)]), self.ty)
 
 
 class UFn:
